@@ -676,7 +676,7 @@ def suites(tier, seed):
     lrule = ('the list form: bi_merge(None, [p, q]) for every ordered pair of publications with non-decreasing stamps%s; same checks as the '
              'history suite, the no-leak differential being taken against the store built by merging the publications one by one')
     if tier == 'quick':
-        first = []
+        first = [[1.0, 2.0]]         # one full version already in the store before the list is merged (every version in the thorough tier)
         depth = 2
     else:
         first = VERSIONS
